@@ -37,6 +37,7 @@ type IdPKnobs struct {
 	LatencyUS          int    `json:"latency_us"`           // token endpoint latency on the fake clock
 	RefreshDeny        bool   `json:"refresh_deny"`         // refresh grants are answered invalid_grant
 	IDNoExp            bool   `json:"id_no_exp,omitempty"`  // ID tokens carry no exp claim (unusual provider)
+	DiscDoc            string `json:"disc_doc,omitempty"`   // discovery document variant: "" | pkce-plain-only | pkce-both | rich | minimal
 	Byz                string `json:"byz"`                  // byzantine production for id_token ("" = honest)
 	ByzOn              string `json:"byz_on"`               // login | refresh | both
 }
@@ -220,6 +221,22 @@ func (p *IdP) Handler() http.Handler {
 			"jwks_uri":                 p.JWKSURL(),
 			"end_session_endpoint":     p.EndSessionURL(),
 			"response_types_supported": []string{"code"},
+		}
+		switch p.Knobs.DiscDoc {
+		case "pkce-plain-only":
+			doc["code_challenge_methods_supported"] = []string{"plain"}
+		case "pkce-both":
+			doc["code_challenge_methods_supported"] = []string{"plain", "S256"}
+		case "rich":
+			doc["code_challenge_methods_supported"] = []string{"S256"}
+			doc["scopes_supported"] = []string{"openid", "email"}
+			doc["token_endpoint_auth_methods_supported"] = []string{"client_secret_post", "private_key_jwt"}
+			doc["id_token_signing_alg_values_supported"] = []string{"RS256", "ES256", "none"}
+			doc["userinfo_endpoint"] = p.base() + "/userinfo"
+			doc["unknown_member"] = map[string]any{"a": 1}
+		case "minimal":
+			delete(doc, "response_types_supported")
+			delete(doc, "issuer")
 		}
 		w.Header().Set("Content-Type", "application/json")
 		if p.RawDisc != nil {
